@@ -137,10 +137,18 @@ where
         writer,
         "    let credentials = self.credentials.as_ref().map(|(u, p)| (u.as_str(), p.as_str()));"
     )?;
-    writeln!(
-        writer,
-        "    helpers::send_soap_request_using_client(&self.client, &self.location, credentials, req).await"
-    )?;
+    if operation.output.is_some() {
+        writeln!(
+            writer,
+            "    helpers::send_soap_request_using_client(&self.client, &self.location, credentials, req).await"
+        )?;
+    } else {
+        // a one-way operation: there is no response envelope to read
+        writeln!(
+            writer,
+            "    helpers::send_soap_request_using_client::<_, helpers::NoResponse, _, _>(&self.client, &self.location, credentials, req).await.map(|_| ())"
+        )?;
+    }
 
     writeln!(writer, "}}")?;
     Ok(())
